@@ -42,7 +42,8 @@ package dspinner
 //@   modifies faulted()
 //@   ensures (err != nil ==> faulted()) && (err == nil ==> faulted() == old(faulted()) && result0 != nil)
 //@ func newPin
-//@   assumed
+//@   prop C22
+//@   arith int
 //@   ensures result != nil && result.Cid == c && result.Mode == mode && result.Name == name
 // encoding a pin record cannot fail for well-formed pins; a failure is counted as a fault
 //@ func encodePin
